@@ -7,9 +7,14 @@
 package main
 
 import (
+	"bytes"
+	"crypto/sha1"
 	"encoding/json"
 	"fmt"
+	"go/ast"
+	"go/printer"
 	"go/token"
+	"go/types"
 	"os"
 	"sort"
 	"strings"
@@ -36,7 +41,51 @@ type sets struct {
 	Reads   []string `json:"reads"`
 	Writes  []string `json:"writes"`
 	Dynamic []string `json:"dynamic_call_sites"`
+	// G7: sources of run-to-run variation in reachable code: every range over a map (function, hash of the
+	// statement's printed text, its first line), every go statement, select, and use of time / math/rand / os.Getpid etc.
+	MapRanges []mapRange `json:"map_ranges"`
+	Nondet    []string   `json:"nondet_sources"`
 }
+
+type mapRange struct {
+	Func string `json:"func"`
+	Ord  int    `json:"ord"` // ordinal among the map ranges of the function, in source order
+	Hash string `json:"hash"`
+	Head string `json:"head"`
+	pos  token.Pos
+}
+
+// range statements by position of their "for" keyword
+var rangeStmts = map[token.Pos]*ast.RangeStmt{}
+
+// conditions of the if statements that enclose a range statement (innermost last): the guard under which it runs
+var rangeGuards = map[token.Pos][]ast.Expr{}
+var theFset *token.FileSet
+
+func rangeText(pos token.Pos) (string, string) {
+	rs := rangeStmts[pos]
+	if rs == nil {
+		return "unknown", "range statement not found in the syntax tree"
+	}
+	var b bytes.Buffer
+	for _, g := range rangeGuards[pos] {
+		b.WriteString("if ")
+		printer.Fprint(&b, theFset, g)
+		b.WriteString(" => ")
+	}
+	guard := b.String()
+	b.Reset()
+	printer.Fprint(&b, theFset, rs)
+	// comments are not part of the node's printed text; whitespace is normalised by the printer
+	txt := b.String()
+	h := sha1.Sum([]byte(guard + txt))
+	head := txt
+	if i := strings.Index(head, "\n"); i >= 0 {
+		head = head[:i]
+	}
+	return fmt.Sprintf("%x", h[:6]), head
+}
+
 
 // String() and Error() methods of the repository's own types: reachable from anywhere through fmt
 var stringers []*ssa.Function
@@ -45,6 +94,8 @@ func reach(root *ssa.Function) sets {
 	seen := map[*ssa.Function]bool{}
 	dyn := map[string]bool{}
 	reads, writes := map[string]bool{}, map[string]bool{}
+	ranges := map[token.Pos]mapRange{}
+	nondet := map[string]bool{}
 	var walk func(f *ssa.Function)
 	walk = func(f *ssa.Function) {
 		if !own(f) || seen[f] {
@@ -81,7 +132,33 @@ func reach(root *ssa.Function) sets {
 						}
 					}
 				}
+				fname := f.Pkg.Pkg.Name() + "." + f.Name()
+				if f.Parent() != nil {
+					fname = f.Pkg.Pkg.Name() + "." + f.Parent().Name() + "." + f.Name()
+				}
+				if r, ok := in.(*ssa.Range); ok {
+					if _, isMap := r.X.Type().Underlying().(*types.Map); isMap {
+						h, head := rangeText(r.Pos())
+						ranges[r.Pos()] = mapRange{Func: fname, Hash: h, Head: head, pos: r.Pos()}
+					}
+				}
+				if _, ok := in.(*ssa.Go); ok {
+					nondet[fname+": go statement"] = true
+				}
+				if _, ok := in.(*ssa.Select); ok {
+					nondet[fname+": select"] = true
+				}
 				if c, ok := in.(ssa.CallInstruction); ok {
+					if sc := c.Common().StaticCallee(); sc != nil && sc.Pkg != nil {
+						switch sc.Pkg.Pkg.Path() {
+						case "time", "math/rand", "math/rand/v2", "crypto/rand":
+							nondet[fname+": "+sc.Pkg.Pkg.Path()+"."+sc.Name()] = true
+						case "os":
+							if sc.Name() == "Getpid" || sc.Name() == "Getenv" || sc.Name() == "Hostname" {
+								nondet[fname+": os."+sc.Name()] = true
+							}
+						}
+					}
 					if sc := c.Common().StaticCallee(); sc != nil {
 						walk(sc)
 					} else if c.Common().IsInvoke() {
@@ -107,6 +184,25 @@ func reach(root *ssa.Function) sets {
 	for k := range dyn {
 		s.Dynamic = append(s.Dynamic, k)
 	}
+	for _, v := range ranges {
+		s.MapRanges = append(s.MapRanges, v)
+	}
+	sort.Slice(s.MapRanges, func(i, j int) bool {
+		a, b := s.MapRanges[i], s.MapRanges[j]
+		if a.Func != b.Func {
+			return a.Func < b.Func
+		}
+		return a.pos < b.pos
+	})
+	for i := range s.MapRanges {
+		if i > 0 && s.MapRanges[i-1].Func == s.MapRanges[i].Func {
+			s.MapRanges[i].Ord = s.MapRanges[i-1].Ord + 1
+		}
+	}
+	for k := range nondet {
+		s.Nondet = append(s.Nondet, k)
+	}
+	sort.Strings(s.Nondet)
 	sort.Strings(s.Reads)
 	sort.Strings(s.Writes)
 	sort.Strings(s.Dynamic)
@@ -127,6 +223,31 @@ func main() {
 	if packages.PrintErrors(pkgs) > 0 {
 		os.Exit(1)
 	}
+	theFset = cfg.Fset
+	packages.Visit(pkgs, nil, func(p *packages.Package) {
+		for _, file := range p.Syntax {
+			var stack []ast.Node
+			ast.Inspect(file, func(n ast.Node) bool {
+				if n == nil {
+					stack = stack[:len(stack)-1]
+					return true
+				}
+				if rs, ok := n.(*ast.RangeStmt); ok {
+					rangeStmts[rs.For] = rs
+					for i, anc := range stack {
+						if is, ok := anc.(*ast.IfStmt); ok {
+							// only when the range statement sits in the then-branch (or deeper in it)
+							if i+1 < len(stack) && stack[i+1] == ast.Node(is.Body) || i+1 == len(stack) {
+								rangeGuards[rs.For] = append(rangeGuards[rs.For], is.Cond)
+							}
+						}
+					}
+				}
+				stack = append(stack, n)
+				return true
+			})
+		}
+	})
 	prog, _ := ssautil.AllPackages(pkgs, ssa.InstantiateGenerics)
 	prog.Build()
 	roots := map[string][2]string{
